@@ -303,6 +303,8 @@ def c17(res: CheckResult) -> None:
              list(DF.fam_recreated(res.tier, rng)), ic, verdicts=True, rng=rng)
     def_unit(res, "every placement of {absent, bare, pre, post} on every class of every shape (exhaustive)",
              list(DF.fam_hier_small(res.tier, rng)), ic, rng=rng)
+    def_unit(res, "classes decorated with invariants after their subclasses have been created, in every order",
+             list(DF.fam_late_inv(res.tier, rng)), ic, verdicts=True, rng=rng)
 
 
 @check("C18")
